@@ -495,7 +495,9 @@ class BaseNodeVisitor(ast.NodeVisitor):
                             description=change.error_str,
                         )
                     )
-                    offset += len(additions or []) - len(linenos)
+                    if additions is not None:
+                        # a change without replacement lines does not edit the file
+                        offset += len(additions) - len(linenos)
             if patches:
                 # poor man's version of https://github.com/facebook/codemod/pull/113
                 with qcore.override(builtins, "print", _flushing_print):
